@@ -338,6 +338,23 @@ def generate(repo):
     for n_, c_ in table: A(f'  | "{n_}" => some "{c_}"')
     A('  | _ => none')
     A('def unitNames : List String := [' + ', '.join(f'"{n_}"' for n_, _ in table) + ']')
+    # ---- the unit a spectrum REPORTS: `waveunit`/`valueunit` setters store Unit(<name>), getters return its `.name` (None for None)
+    spc = classes.get('Spectrum')
+    for attr in ('waveunit', 'valueunit'):
+        fs = [n for n in spc.body if isinstance(n, ast.FunctionDef) and n.name == attr]
+        get = [f for f in fs if any(ast.unparse(d) == 'property' for d in f.decorator_list)]
+        st_ = [f for f in fs if any(ast.unparse(d) == f'{attr}.setter' for d in f.decorator_list)]
+        if len(get) != 1 or len(st_) != 1: raise Refuse(f'Spectrum.{attr}: property/setter')
+        gb = [x for x in get[0].body if not (isinstance(x, ast.Expr) and isinstance(x.value, ast.Constant))]
+        if not (len(gb) == 1 and isinstance(gb[0], ast.If) and ast.unparse(gb[0].test) == f'self._{attr} is not None' and ast.unparse(gb[0].body[0]) == f'return self._{attr}.name'
+                and len(gb[0].orelse) == 1 and ast.unparse(gb[0].orelse[0]) == 'return None'): raise Refuse(f'Spectrum.{attr} getter')
+        sb = [x for x in st_[0].body if not (isinstance(x, ast.Expr) and isinstance(x.value, ast.Constant))]
+        if [a_.arg for a_ in st_[0].args.args] != ['self', attr] or len(sb) != 1 or ast.unparse(sb[0]) != f'self._{attr} = Unit({attr})': raise Refuse(f'Spectrum.{attr} setter')
+    A('\n/-- the unit name a spectrum built with / assigned the name `n` reports (`waveunit`, `valueunit` properties: `Unit(n).name`; argument: `n.lower()`) -/')
+    A('def reportedUnit (lowered : String) : Option String := unitOfName lowered')
+    A('/-- the names `Spectrum.to` dispatches on (`unit.lower() in […]`): wavelength targets, flux targets -/')
+    A('def toWaveNames : List String := [' + ', '.join(f'"{u}"' for u in wunits) + ']')
+    A('def toFluxNames : List String := [' + ', '.join(f'"{u}"' for u in funits) + ']')
     return '\n'.join(L) + '\n', notes
 
 MODULES = [{'name': 'Units', 'src': SRC, 'generator': generate, 'props': ['C14', 'C13']}]
